@@ -447,6 +447,7 @@ func (w *hpWorld) history(r *h.Report, x *hpRun, ops []string) bool {
 				t.c11Handles(r, done, wr, s.hs)
 				t.c11Store(r, done, wr, before, after, v)
 				t.c04(r, done, wr, before, after, v)
+				t.c04Lean(s.d, r, done, wr, before, after, v)
 			} else {
 				// which entries of the list count is the implementation's choice: only the correspondence judges;
 				// retained values are re-based so that later steps are attributed to their own op
